@@ -61,6 +61,7 @@ type MapV struct {
 	seq     int
 	ID      int
 	Glob    string // set when the map was loaded from package-level state
+	JSONObj bool   // JSON tree node built from a struct: members stay in field order (map-derived objects are sorted by key)
 }
 
 type Iface struct {
